@@ -150,6 +150,8 @@ func RunCase(t *testing.T, c *Case, work, sched *choice.Source, st *Stats) (fs [
 		return runOBJBuild(r, work)
 	case c.Kind == "render":
 		return runRender(r, work)
+	case c.Kind == "coldstart":
+		return runColdStart(r, work)
 	case strings.HasPrefix(c.Kind, "c12:"):
 		cc := &c12.Case{Algo: c.Kind[4:]}
 		cst := &c12.Stats{}
